@@ -91,9 +91,14 @@ def replay_native(case, inputs, label, props):
     """re-run the same sub-case concretely on the native build (unmodified /repo/ddo, Cost = isize).
     returns (reproduced: bool, detail)"""
     try:
-        nat, _ = build.ensure_native()
+        if case.get("kind") == "par":
+            # schedules cannot be forced onto real threads: parallel counterexamples are replayed,
+            # concretely (no solver, no symbolic values), on the scheduled build
+            nat, _ = build.ensure_symx(sched=True)
+        else:
+            nat, _ = build.ensure_native()
     except build.BuildError as e:
-        return None, "native build failed: %s" % e
+        return None, "replay build failed: %s" % e
     b = dict(case)
     b["concrete"] = "1"
     b["inputs"] = ",".join("%s:%d" % (k, v) for k, v in inputs.items())
